@@ -105,6 +105,19 @@ theorem TV.addSub {L : List (Acct × Node)} {V : View} (h : TV ex accts groups L
   have hle : V.le (V.addSub p) := ⟨Nat.le_refl _, fun _ _ => Nat.le_refl _, fun q hq => List.mem_append_left _ hq⟩
   exact { h with
     downs := fun r st hst => (h.downs r st hst).mono hle
+    kept := fun a n hn r hr => by
+      rcases h.kept a n hn r hr with h1 | h1 | h1
+      · exact Or.inl h1
+      · exact Or.inr (Or.inl h1)
+      · refine Or.inr (Or.inr ?_)
+        show 100 < (V.submitted ++ [p]).length
+        rw [List.length_append]; omega
+    retq := fun a e he n w c hc hg => by
+      rcases h.retq a e he n w c hc hg with h1 | h1
+      · exact Or.inl h1
+      · refine Or.inr ?_
+        show 100 < (V.submitted ++ [p]).length
+        rw [List.length_append]; omega
     rids := fun r e he => by
       obtain ⟨q, hq, hid⟩ := h.rids r e he
       exact ⟨q, List.mem_append_left _ hq, hid⟩ }
@@ -113,7 +126,7 @@ theorem TV.extend {L : List (Acct × Node)} {V : View} (h : TV ex accts groups L
     (hneq : ∀ r, r ∈ intendedG groups a n → r ≠ a)
     (hcons : ∀ r, r ∈ intendedG groups a n → tokensV V a n.id r = 1)
     (hrcons : ∀ r, r ∈ intendedG groups a n → receiptTokensV V a n.id r = shownC (V.cl r) n.id)
-    (hkept : ∀ r, r ∈ intendedG groups a n → inTransitV V a n.id r = 0 ∨ n ∈ (V.cl a).sentQueue)
+    (hkept : ∀ r, r ∈ intendedG groups a n → inTransitV V a n.id r = 0 ∨ n ∈ (V.cl a).sentQueue ∨ 100 < V.submitted.length)
     (hret3 : ∀ g, n.dest = .group g → (lookup (V.cl a).ownSK g).isSome = true ∨ ∃ e ∈ (V.cl a).iqReg, firstGroupCont e.2 n.id) :
     TV ex accts groups (L ++ [(a, n)]) V := by
   have key : ∀ {P : Acct → Node → Prop}, (∀ a' n', (a', n') ∈ L → P a' n') → P a n → ∀ a' n', (a', n') ∈ L ++ [(a, n)] → P a' n' := by
